@@ -265,21 +265,29 @@ def r09d(run):
     g = run.repo.func("utype.parser.rule", "LogicalType.combine")
     ga = analysis(g)
     dedupe = anyor = anyand = single = False
+    # roles: the operator parameter and the loop variable that walks the arguments (whatever they are called)
+    OP = g.params[1] if len(g.params) > 1 else "operator"
+    loops = [m.stmt for m in ga.cfg.nodes if m.kind == "iter" and isinstance(m.stmt, ast.For)
+             and isinstance(m.stmt.target, ast.Name) and g.node.args.vararg is not None
+             and unparse(m.stmt.iter) == g.node.args.vararg.arg]
+    if len(loops) != 1:
+        raise AnalysisError("R09d: LogicalType.combine has no single loop over its arguments")
+    ARG = loops[0].target.id
     for n in ga.cfg.nodes:
         if n.kind != "stmt":
             continue
         facts = {(unparse(a), p) for a, p in ga.facts.atoms_at(n)}
         if isinstance(n.ast, ast.Continue):
-            if any(t.startswith("arg in ") and p for t, p in facts):
+            if any(t.startswith(f"{ARG} in ") and p for t, p in facts):
                 dedupe = True
-            if ("arg == Any", True) in facts and ("operator == '&'", True) in facts:
+            if (f"{ARG} == Any", True) in facts and (f"{OP} == '&'", True) in facts:
                 anyand = True
         if isinstance(n.ast, ast.Return):
-            if ("arg == Any", True) in facts and ("operator in ('|', '^')", True) in facts \
+            if (f"{ARG} == Any", True) in facts and (f"{OP} in ('|', '^')", True) in facts \
                     and unparse(n.ast.value) == "Rule":
                 anyor = True
             if any(t.startswith("len(") and t.endswith("== 1") and p for t, p in facts) and \
-                    ("operator != '~'", True) in facts:
+                    (f"{OP} != '~'", True) in facts:
                 single = True
     for ok, what, nec in ((dedupe, "duplicate arguments are skipped", "T | T would keep two arguments"),
                           (anyor, "Any absorbs a union / exclusive-or", "T | Any would still convert to T"),
